@@ -317,4 +317,10 @@ def generate(seed, tier):
         g.count("kind_" + k)
         g.count("op_" + line.split()[1])
         lines.append(line)
+    # the same decoders from several goroutines at once (each listener, each TCP connection, each loop decodes on its own)
+    dom = [l for l in lines if l.startswith("codec ") and l.split()[1] in ("uri", "via", "route", "rr", "from", "to") and " # spec=C14 eq ok " in l]
+    for r in range(3 if tier == "quick" else 40):
+        pick = [dom[g.rint(0, len(dom) - 1)] for _ in range(12)]
+        lines.append("codec conc %d %s # spec=C14 eq ok # spec=C09 eq ok" % (120 if tier == "quick" else 400, " ".join("%s:%s" % (l.split()[1], l.split()[2]) for l in pick)))
+        g.count("concurrent_decoding_runs")
     return lines, g.stats
